@@ -142,6 +142,11 @@ class LexModel:
                 return {"kind": "scan", "term": t}
             return {"kind": "tok", "token": e["?x"], "consumed": 0}
         if isinstance(t, tuple) and t[0] == "seq" and len(t) == 3:
+            e = M(("let", "?v", ("try", PEEK)), t[1])
+            if e is not None and isinstance(t[2], tuple) and t[2][0] == "if" and len(t[2]) == 4 and t[2][1] == ("call", "char::is_ascii_digit", ("var", e["?v"])):
+                if not rest:
+                    return {"kind": "none"}
+                return self._run(t[2][2] if rest[0] in "0123456789" else t[2][3], rest)
             e = unify(CONSUME, t[1])
             if e is not None:
                 k = int(e["?k"])
